@@ -13,6 +13,7 @@
      internal/runtime.go:239 rt.Do / Try / DoWithParent                                  -> PDo
      internal/runtime.go:250 rt.DoWithParent(c px.Context, actor) = c.Fork() made current -> PDoCtx _ CFork
      threadlocal/gid.go:14   getg (the index of the table)                               -> Model/CtxGid.v
+     runtime.Goexit()        (t.FailNow-style end of a goroutine: deferred functions only)      -> PGoexit, notry, exit_stack
      loader/loader.go:67     load; :113 basicLoader.SetEntry; :166 parentedLoader.LoadEntry -> load_entry / set_entry
 
    The machine is an interleaving machine: `step g c` performs ONE atomic step of goroutine g (one statement,
@@ -58,7 +59,8 @@ Inductive prog :=
 | PSetLoader (lbl : label) (le : lexp)
 | PDefine (n : name) (v : val)
 | PObserve (lbl : label)
-| PPanic.
+| PPanic
+| PGoexit.                                                 (* runtime.Goexit() (also t.FailNow / t.SkipNow) *)
 
 (* ---- heap objects ---------------------------------------------------------------------------------------- *)
 
@@ -119,7 +121,9 @@ Definition live_tables (t : tlsmap) : nat :=
 
 (* ---- events, frames, goroutines, configurations ------------------------------------------------------------ *)
 
-Inductive pcls := PUser | PNoCtx | PNoCurrent | PRedefine | PFault | PNoTable | POther.
+(* why control leaves a statement abnormally: the classes of panics, and PExit = runtime.Goexit (not a panic: no
+   recover point sees it, the goroutine ends after its deferred functions have run) *)
+Inductive pcls := PUser | PNoCtx | PNoCurrent | PRedefine | PFault | PNoTable | POther | PExit.
 Inductive lres := LFound (v : val) | LMissing | LOutOfFuel.
 
 (* what an Observe sees of its lexical context (the one handed to the enclosing body) *)
@@ -332,6 +336,7 @@ Definition exec_stmt (g : gid) (env : list addr) (p : prog) (s : shared) : sres 
   | PObserve lbl =>
     {| r_sh := s; r_push := []; r_spawn := None; r_events := [observe g env lbl s]; r_panic := false |}
   | PPanic => raise s PUser
+  | PGoexit => raise s PExit                                          (* the stack below: exit_stack, in step_g *)
   | PTry body => enter s [KSeq env body; KTry]
   | PDoLoader lbl le body =>                                          (* internal/context.go:90 *)
     with_lex env s (fun a c =>
@@ -410,6 +415,23 @@ Fixpoint unwind (K : list frame) : bool * list frame :=
 Definition resume (panicking : bool) (K : list frame) : bool * list frame :=
   if panicking then unwind K else (false, settle K).
 
+(* runtime.Goexit (go1.x runtime/panic.go Goexit): the goroutine runs ALL its deferred functions and ends; recover()
+   returns nil in them, so no recover point stops it, and the functions never return to their callers.  The model
+   keeps the unwinding machinery of a panic and makes the recover points of the goroutine inert at the moment
+   Goexit is called: they are removed from its stack (`notry`).  What remains stops the unwinding only at deferred
+   functions (KDefer: one step each, as for a panic) and at the goroutine epilogue (KEnd: the deferred Cleanup of
+   px.Fork / threadlocal.Go, px/context.go:177, gid.go:77). *)
+Fixpoint notry (K : list frame) : list frame :=
+  match K with
+  | [] => []
+  | KTry :: K' => notry K'
+  | f :: K' => f :: notry K'
+  end.
+
+Definition is_goexit (p : prog) : bool := match p with PGoexit => true | _ => false end.
+(* the frames below the statement p once p has been executed *)
+Definition exit_stack (p : prog) (K : list frame) : list frame := if is_goexit p then notry K else K.
+
 (* ---- one step of goroutine g ---------------------------------------------------------------------------------------- *)
 
 (* result of a step of one goroutine: new shared state, its new state, a spawned goroutine *)
@@ -418,7 +440,7 @@ Definition step_g (g : gid) (s : shared) (st : gstate) : shared * gstate * optio
   | [] => (s, st, None)
   | KSeq env (p :: ps) :: K =>
     let r := exec_stmt g env p s in
-    let '(pn, K') := resume (r_panic r) (r_push r ++ KSeq env ps :: K) in
+    let '(pn, K') := resume (r_panic r) (r_push r ++ KSeq env ps :: exit_stack p K) in
     (r_sh r,
      {| g_stack := K'; g_panic := pn; g_trace := rev (r_events r) ++ g_trace st |},
      match r_spawn r with
@@ -484,7 +506,7 @@ Definition finished (c : config) : bool := forallb (fun st => match g_stack st w
 Definition pcls_eqb (a b : pcls) : bool :=
   match a, b with
   | PUser, PUser | PNoCtx, PNoCtx | PNoCurrent, PNoCurrent | PRedefine, PRedefine
-  | PFault, PFault | PNoTable, PNoTable | POther, POther => true
+  | PFault, PFault | PNoTable, PNoTable | POther, POther | PExit, PExit => true
   | _, _ => false
   end.
 Definition lres_eqb (a b : lres) : bool :=
